@@ -198,6 +198,58 @@ def slices(rc):
         raise AnalysisError(f"DBNInference: only {n_sites} slice-coordinate sites found")
 
 
+def _assigns_on_all_paths(stmts, name) -> bool:
+    """does this statement list assign `name` on every path through it (unconditionally, or in both branches of an if/else)?"""
+    for st in stmts:
+        if isinstance(st, ast.Assign) and any(isinstance(t, ast.Name) and t.id == name for t in st.targets):
+            return True
+        if isinstance(st, ast.If) and st.orelse and _assigns_on_all_paths(st.body, name) and _assigns_on_all_paths(st.orelse, name):
+            return True
+    return False
+
+
+@rule("C17.carry", "observed interface nodes of the neighbouring slice are re-computed in every step and merged into the step's evidence whenever they exist", floor=4)
+def carry(rc):
+    """Interface algorithm: the 1.5-slice step for slice t must see the observed interface nodes of slice t-1 (re-keyed to slice 0) as evidence.
+    Two structural necessary conditions, the same in the forward and the backward pass:
+      (a) the carried dictionary is re-computed on every path of every iteration (else a value from another slice is reused);
+      (b) it is merged into the step's evidence under no condition other than its own non-emptiness (a guard on the CURRENT slice's evidence drops it
+          exactly when the current slice is unobserved)."""
+    repo = rc.repo
+    for name in ("forward_inference", "backward_inference"):
+        f = repo.func(DI, f"DBNInference.{name}")
+        loops = [n for n in walk_no_nested(f.node) if isinstance(n, ast.For) and isinstance(n.iter, ast.Call) and call_name(n.iter) == "range"]
+        if not loops:
+            raise AnalysisError(f"{name}: slice loop not found")
+        lp = loops[-1] if name == "backward_inference" else loops[0]
+        # carried dictionaries: dict comprehensions filtered by membership in the interface nodes, assigned inside the loop
+        carried = {}
+        for n in ast.walk(lp):
+            if isinstance(n, ast.Assign) and len(n.targets) == 1 and isinstance(n.targets[0], ast.Name) and isinstance(n.value, ast.DictComp) \
+                    and any("interface_nodes_" in norm(c) for g in n.value.generators for c in g.ifs):
+                carried.setdefault(n.targets[0].id, []).append(n)
+        if not carried:
+            raise AnalysisError(f"{name}: carried interface evidence not found")
+        for I, defs_ in carried.items():
+            cover = _assigns_on_all_paths(lp.body, I)
+            rc.ob(f"{name}: carried interface evidence `{I}` re-computed on every path of an iteration: {cover}")
+            if not cover:
+                rc.fail(f, defs_[0], f"DBNInference.{name}: `{I}` is only re-computed under a condition; on the other path the value of an earlier iteration (another time slice) "
+                        "is merged into this step's evidence", construct=f"{name} stale carried evidence")
+            merges = sites(lp, lambda n: (isinstance(n, ast.Call) and call_name(n) == "update" and n.args and dotted(n.args[0]) == I)
+                           or (isinstance(n, ast.Dict) and any(k is None and dotted(v) == I for k, v in zip(n.keys, n.values))))
+            if not merges:
+                rc.fail(f, lp, f"DBNInference.{name}: the carried interface evidence `{I}` never reaches the step's evidence", construct=f"{name} carried evidence unused")
+            for s_ in merges:
+                tgt = dotted(s_.node.func.value) if isinstance(s_.node, ast.Call) else None
+                foreign = [(t, pol) for t, pol in s_.conds if not (dotted(t) == I) and not any(isinstance(x, ast.Name) and x.id == I for x in ast.walk(t))]
+                rc.ob(f"{name}: `{norm(s_.node, 70)}` under {[('' if pol else 'not ') + norm(t, 40) for t, pol in s_.conds]}")
+                if foreign:
+                    rc.fail(f, s_.node, f"DBNInference.{name}: the observed interface nodes of the neighbouring slice are merged only if `{norm(foreign[0][0], 50)}`"
+                            f"{'' if foreign[0][1] else ' is false'}: when that does not hold (e.g. the current slice has no evidence of its own) they are dropped and the step "
+                            "ignores an observation", construct=f"{name} carried evidence merge guard")
+
+
 @rule("C17.engines", "a fresh BeliefPropagation per slice; BeliefPropagation copies the junction tree it is given", floor=3)
 def engines(rc):
     repo = rc.repo
@@ -251,7 +303,15 @@ def defuse(rc):
     from . import shared as _sh
     _sh.defuse_rule(rc, _sh.anchor_files("C17"))
 
+_BW_MERGE = "            if evidence_time:\n                evidence_time.update(interface_nodes_dict)\n            mid_bp = BeliefPropagation(self.one_and_half_junction_tree)\n            self._update_belief(mid_bp, self.in_clique, potential_dict[time_slice - 1])"
+
 MUTANTS = [
+    dict(kind="repair", name="backward-merges-whenever-carried-evidence-exists", file=DI,
+         old=_BW_MERGE, new="            if interface_nodes_dict:\n                evidence_time = {**(evidence_time or {}), **interface_nodes_dict}\n            mid_bp = BeliefPropagation(self.one_and_half_junction_tree)\n            self._update_belief(mid_bp, self.in_clique, potential_dict[time_slice - 1])"),
+    dict(kind="break", name="backward-carried-evidence-stale-again", file=DI, expect="C17.carry",
+         old="                    if k in self.interface_nodes_0\n                }\n            else:\n                interface_nodes_dict = {}\n", new="                    if k in self.interface_nodes_0\n                }\n"),
+    dict(kind="break", name="forward-merge-guarded-by-slice-evidence", file=DI, expect="C17.carry",
+         old="            if interface_nodes_dict:\n                evidence_time.update(interface_nodes_dict)", new="            if evidence_time:\n                evidence_time.update(interface_nodes_dict)"),
     dict(kind="break", name="carry-over-keys-in-wrong-slice", file=DI, expect="C17.slices",
          old="            if evidence_time:\n                interface_nodes_dict = {\n                    (k[0], 0): v\n                    for k, v in evidence_time.items()\n                    if k in self.interface_nodes_1\n                }\n            else:\n                interface_nodes_dict = {}",
          new="            observed = self._get_evidence(evidence, time_slice, 0) or {}\n            interface_nodes_dict = {k: v for k, v in observed.items() if k in self.interface_nodes_1}"),
